@@ -476,3 +476,38 @@ cal.callee("constant_bound",
            result=lambda g, a: (g.optint("cb_lo"), g.optint("cb_hi")),
            ensures=lambda a: bound_ok(a.result, ev(a.expr)),
            assumed=False, note="proved above")
+
+
+# ----------------------------------------------------------------------------
+# partial_eval_with_range: eliminate one variable from the base, given its range
+# (used by fold_buffer's window computation).  gamma-soundness: every value of
+# `self` under a valuation whose `var` lies in `rng` is a value of the result.
+
+cpe = contract("C13", F, "IndexRange.partial_eval_with_range")
+_PV, _PO = Sym("i"), Sym("j")
+
+@cpe.inputs
+def _(g):
+    rd = lambda s: LoopIR.Read(s, [], T.index, SRC)
+    k = g.choose(["var", "k*var", "k*var+other", "other"], "base")
+    if k == "var":
+        base = rd(_PV)
+    elif k == "k*var":
+        base = LoopIR.BinOp("*", LoopIR.Const(g.int("k"), T.int, SRC), rd(_PV), T.index, SRC)
+    elif k == "k*var+other":
+        base = LoopIR.BinOp("+", LoopIR.BinOp("*", LoopIR.Const(g.int("k"), T.int, SRC), rd(_PV), T.index, SRC),
+                            rd(_PO), T.index, SRC)
+    else:
+        base = rd(_PO)
+    s = IndexRange(base, g.optint("lo"), g.optint("hi"))
+    rb = RA.zero() if g.choose(["zero", "sym"], "rng.base") == "zero" else rd(Sym("r"))
+    rng = IndexRange(rb, g.optint("rlo"), g.optint("rhi"))
+    return {"self": s, "var": _PV, "rng": rng, "__ghost__": {"v": g.int("v")}}
+
+@cpe.requires
+def _(a):
+    return And(in_gamma(a.self, a.ghost.v), in_gamma(a.rng, rho(a.var)))
+
+@cpe.ensures("values of the range are kept when a variable is replaced by its range")
+def _(a):
+    return in_gamma(a.result, a.ghost.v)
